@@ -99,7 +99,66 @@ func genCollapse(rng *rand.Rand, w int, kind int) lpoly {
 		}
 		return v
 	}
-	switch kind % 5 {
+	switch kind % 6 {
+	case 5: // hourglass: two lobes joined by a neck narrower than a pixel, optionally a hole whose tip reaches into the neck pixel
+		m := max / 2 / 4 * 4 // neck pixel [m, m+4)
+		nw := 1 + rng.Intn(2)
+		ny0 := m + 1 // both neck vertices and the hole's tip inside the one finest-level pixel [m, m+4)
+		lobe := max/4 + rng.Intn(max/4)
+		if lobe > m {
+			lobe = m
+		}
+		x0, x1 := m+2-lobe-2, m+2+lobe+2
+		if x0 < 0 {
+			x0 = 0
+		}
+		if x1 > max {
+			x1 = max
+		}
+		h := 4 + rng.Intn(lobe)
+		outer := [][2]int{{x0, ny0 - h}, {m + 2, ny0}, {x1, ny0 - h}, {x1, ny0 + nw + h}, {m + 2, ny0 + nw}, {x0, ny0 + nw + h}}
+		for i := range outer {
+			if outer[i][1] < 0 {
+				outer[i][1] = 0
+			}
+			if outer[i][1] > max {
+				outer[i][1] = max
+			}
+		}
+		p := lpoly{outer}
+		if rng.Intn(3) > 0 && lobe >= 6 {
+			// hole in one lobe: a tip just inside the neck pixel, the rest well inside the lobe
+			var hole [][2]int
+			ty := ny0 + (nw+1)/2
+			// the far side of the hole: as tall as the lobe allows at three quarters of its depth
+			far := lobe * 3 / 4
+			half := h*far/(lobe+2) - 2
+			if half < 2 {
+				half = 2
+			}
+			if rng.Intn(2) == 0 { // left lobe
+				hole = [][2]int{{m + 1, ty}, {m + 2 - far, ty - half + rng.Intn(2)}, {m + 2 - far, ty + half - rng.Intn(2)}}
+			} else {
+				hole = [][2]int{{m + 3, ty}, {m + 2 + far, ty + half - rng.Intn(2)}, {m + 2 + far, ty - half + rng.Intn(2)}}
+			}
+			rot := 0
+			if rng.Intn(2) == 0 {
+				rot = rng.Intn(3)
+			}
+			hole = append(hole[rot:], hole[:rot]...)
+			if rng.Intn(2) == 0 {
+				hole = reverseRing(hole)
+			}
+			p = append(p, hole)
+		}
+		if rng.Intn(2) == 0 { // transpose
+			for r := range p {
+				for i := range p[r] {
+					p[r][i] = [2]int{p[r][i][1], p[r][i][0]}
+				}
+			}
+		}
+		return p
 	case 0: // sliver: long thin quadrilateral / triangle
 		x0, y0 := rng.Intn(max/3), rng.Intn(max)
 		x1 := x0 + max/3 + rng.Intn(max/3)
@@ -227,6 +286,81 @@ func genArbitrary(rng *rand.Rand, w, nmax int) lpoly {
 			}
 		}
 		p[r] = ring
+	}
+	return p
+}
+
+// rectilinear polygons with notches and a rectangular hole whose sides are aligned with a notch (column / row ties for the
+// hole-to-shell matching and for point-in-ring tests)
+func genRect(rng *rand.Rand, w int) lpoly {
+	max := w * 4
+	q := func(v int) int { // most coordinates on pixel borders or centres
+		switch rng.Intn(4) {
+		case 0:
+			return v
+		case 1:
+			return v / 2 * 2
+		default:
+			return v / 4 * 4
+		}
+	}
+	x0, y0 := q(rng.Intn(max/4)), q(rng.Intn(max/4))
+	x1, y1 := q(max-rng.Intn(max/4)), q(max-rng.Intn(max/4))
+	if x1-x0 < 16 || y1-y0 < 16 {
+		x0, y0, x1, y1 = 0, 0, max, max
+	}
+	// notch in the top side
+	a := q(x0 + 4 + rng.Intn((x1-x0)/2-3))
+	b := q(a + 4 + rng.Intn(x1-a-7))
+	if b >= x1 {
+		b = x1 - 4
+	}
+	if a <= x0 {
+		a = x0 + 4
+	}
+	if b <= a {
+		b = a + 4
+	}
+	d := q(2 + rng.Intn((y1-y0)/2))
+	if d < 2 {
+		d = 2
+	}
+	shell := [][2]int{{x0, y0}, {x1, y0}, {x1, y1}, {b, y1}, {b, y1 - d}, {a, y1 - d}, {a, y1}, {x0, y1}}
+	p := lpoly{shell}
+	if rng.Intn(4) > 0 {
+		// hole below the notch
+		ha, hb := a, b
+		if rng.Intn(3) == 0 {
+			ha, hb = q(x0+2+rng.Intn(6)), q(x1-2-rng.Intn(6))
+		}
+		top := y1 - d - 2 - rng.Intn(4)
+		bot := y0 + 2 + rng.Intn(4)
+		if top-bot >= 2 && hb-ha >= 2 && ha > x0 && hb < x1 {
+			p = append(p, [][2]int{{ha, bot}, {ha, top}, {hb, top}, {hb, bot}})
+		}
+	}
+	switch rng.Intn(4) { // rotate by multiples of 90 degrees
+	case 1:
+		for r := range p {
+			for i := range p[r] {
+				p[r][i] = [2]int{p[r][i][1], p[r][i][0]}
+			}
+		}
+	case 2:
+		for r := range p {
+			for i := range p[r] {
+				p[r][i] = [2]int{max - p[r][i][0], max - p[r][i][1]}
+			}
+		}
+	case 3:
+		for r := range p {
+			for i := range p[r] {
+				p[r][i] = [2]int{max - p[r][i][1], p[r][i][0]}
+			}
+		}
+	}
+	if rng.Intn(2) == 0 {
+		p[0] = reverseRing(p[0])
 	}
 	return p
 }
